@@ -46,7 +46,7 @@ def make_corpus(grams, tag):
     Writes the corpus JSON for TLC; returns (path, corpus)."""
     for g in grams:
         cs = set(g.get("alphabet", [])) | {97, 98, 99, 32, 35, 233, 20013, 128512, 10, 13, 9, 48, 49, 65, 90, 122, 57}
-        for x in g.get("inputs", []):
+        for x in g.get("inputs", []) + g.get("long_inputs", []):
             cs |= set(x)
         for a, b in g.get("ctxs", []):
             cs |= set(a) | set(b)
